@@ -1199,7 +1199,9 @@ class SyncState:  # pylint: disable=too-many-instance-attributes, too-many-publi
 
         changes = sorted(change_set, key=sort_key)
 
-        now = time.time()
+        # change stamps are forced to increase (see mark_changed), so they can be slightly ahead of a
+        # coarse clock: with ageing zero every pending change must still be eligible at once
+        now = max(time.time(), self._last_changed_time)
         earlier_than = now - age
         for e in changes:
             if (e[LOCAL].changed and (e[LOCAL].changed <= earlier_than)) \
